@@ -26,7 +26,7 @@ CHECKS["C20"] = {
     "technique": "model-based property testing (rapid) of the real health loop on a synctest fake clock against a reference model of the statement",
     "level_text": "Generated histories (0-3 scripted tokens, threshold N 1-5, interval, ping timeout, disabled flag, per-check outcomes ok/error/hang/slow, observation instants, close at any step) are executed on the real server.New health loop inside a testing/synctest bubble; after every observation GET /health is compared with a model written from the statement (disabled, or no completed check for 3 intervals, or last N checks all failed; one success restores). Close is checked separately on the real clock (goroutine must be gone) and inside the bubble (no goroutine, no further token checks).",
     "level_note": "Trusts go1.26.8 testing/synctest as the clock and scripted fake tokens registered through token.Openers; same-instant races (slow == timeout) are excluded; PKCS#11 worker tokens not exercised.",
-    "quick": {"checks": 4000, "timeout": 600, "vmem_kb": 0},
+    "quick": {"checks": 10000, "timeout": 600, "vmem_kb": 0},
     "thorough": {"checks": 60000, "timeout": 3000, "vmem_kb": 0, "shards": 8},
 }
 CHECKS["C04"] = {
@@ -35,7 +35,7 @@ CHECKS["C04"] = {
     "technique": "property-based testing (rapid): generated configurations x requests against a reference authorisation model, a call-recording token and a metamorphic header relation",
     "level_text": "Generated relic configurations (clients by SPKI fingerprint or issuing CA incl. chains, wrong EKU, expired; role sets; keys incl. aliases that dangle / chain / self-reference, hidden, tokenless, undefined-token; trusted-proxy lists v4/v6/CIDR) are loaded through config.ReadFile and served by the real server.New(cfg).Handler(). For each generated request (endpoint, key, peer, TLS chain, X-Forwarded-For / Ssl-Client-Cert, or bearer token with a scripted policy endpoint) a reference model of the statement predicts 401/403/400/allowed; a recording token registered via token.Openers proves no GetKey/Sign on refused requests; the access log's stack field exposes recovered panics; listings are checked in both directions; headers from untrusted peers must leave status, body, logged address/user and audit identity unchanged; audit records must name the resolved key, the model's client and address.",
     "level_note": "TLS chains are injected as tls.ConnectionState (no handshake). For a trusted peer that sends no X-Forwarded-For either identity source is accepted. Entitled callers of role-less keys (reachable only through policy allowed_keys) may get an error: relic opens no token for them and C04 does not demand success.",
-    "quick": {"checks": 2500, "timeout": 600},
+    "quick": {"checks": 6000, "timeout": 600},
     "thorough": {"checks": 40000, "timeout": 3000, "shards": 8},
 }
 CHECKS["C17"] = {
@@ -44,7 +44,7 @@ CHECKS["C17"] = {
     "technique": "differential property-based testing (rapid): generated ZIP archives read by zipslicer vs generator layout, Go archive/zip and Python zipfile; rewrite/read-back round trips",
     "level_text": "A byte-exact ZIP generator with a layout model (descriptor kinds, forced ZIP64 records, extras, comments, prefix, gaps, permuted directory, 0..64 KiB members) produces archives that Go archive/zip and Python zipfile must first accept; zipslicer's random-access and tar-streaming readers must then report the same member list, offsets, sizes, CRCs and contents. The untouched directory must re-serialise to the original entry bytes (end records equal in meaning, byte-identical when no ZIP64 end record is involved; GetOriginalDirectory byte-identical always). Mangle/NewFile/MakePatch rewrites (delete subsets, add files, force ZIP64) for 1-3 rounds must be read back identically by Go, Python and relic (both modes).",
     "level_note": "Archives >= 4 GiB and partial ZIP64 extra records are not generated. Listed findings (archive comment, signature-less descriptor, permuted directory in streaming mode, 24-byte descriptor on empty member) are probed each run and excluded by construction from the main search.",
-    "quick": {"checks": 700, "timeout": 900},
+    "quick": {"checks": 2500, "timeout": 900},
     "thorough": {"checks": 12000, "timeout": 3400, "shards": 8},
 }
 CHECKS["C01"] = {
@@ -53,7 +53,7 @@ CHECKS["C01"] = {
     "technique": "property-based testing (rapid): generated artefacts x key x digest x flags x pipeline, oracle = support table + relic verifier + identity/digest of the accepted signature",
     "level_text": "For each of 17 package types an input is drawn (by-construction generators for PE, MSI/CFB, JAR/ZIP, PowerShell family and PGP payloads; repository fixtures for the rest), then key (RSA-2048/3072, P-256/384/521), digest (SHA-1..SHA-512), signer flags, pipeline (library call sequence of the sign command; real daemon over TLS + remote client; the relic binary), output path mode and optional pre-signing. Supported combinations must sign and verify under relic's verifier with digests and chain checking on, naming the configured leaf (or PGP key) and the requested digest; unsupported ones must fail with an explicit error, leave the input byte-identical and leave no output or temporary file.",
     "level_note": "Support table written from README/doc (three-valued); file token only. Inputs for cab/cat/xap/vsix/appx/apk/dmg/pkg/mach-o/rpm/deb/appmanifest are the repository fixtures (no generator), so the input quantifier is only sampled there.",
-    "quick": {"checks": 120, "timeout": 1200},
+    "quick": {"checks": 300, "timeout": 1200},
     "thorough": {"checks": 1500, "timeout": 3400, "shards": 8},
 }
 CHECKS["C03"] = {
@@ -62,7 +62,7 @@ CHECKS["C03"] = {
     "technique": "property-based testing (rapid): sign generated artefacts, compare payload items before/after with independent readers",
     "level_text": "For PE, MSI/CFB, JAR (plain and hostile layouts: prefix bytes, gaps, zero-length members, long names), PowerShell scripts, XAP, VSIX, APPX, APK, Mach-O and DEB an input is generated (or a fixture drawn), signed through the library pipeline to the same or a new path, and the outcome must be either (error, input byte-identical, nothing left behind) or (success; output accepted by an independent reader - Go archive/zip, debug/macho, ar, harness PE parser, harness CFB validator; every payload item that is not signature metadata identical in bytes, metadata and order; relic's verifier accepts it).",
     "level_note": "Signature metadata per format is listed in harness/arts (e.g. META-INF/*.SF|RSA|EC|MANIFEST.MF for JAR; AppxManifest.xml for APPX because relic rewrites its Publisher by design). CAB, CAT, DMG, XAR and RPM have no independent payload reader here and are not covered by this check.",
-    "quick": {"checks": 120, "timeout": 1200},
+    "quick": {"checks": 300, "timeout": 1200},
     "thorough": {"checks": 2500, "timeout": 3400, "shards": 8},
 }
 CHECKS["C08"] = {
@@ -71,7 +71,7 @@ CHECKS["C08"] = {
     "technique": "stateful property-based testing (rapid): histories of re-signing with invariants after every step",
     "level_text": "For 16 package types a starting artefact is drawn (generated PE/MSI/JAR/PowerShell incl. ones carrying a third-party-style signature container, or a fixture incl. the tool-signed exe/appx/rpm) and signed 1-5 (thorough: up to 12) times with drawn key, digest, options and pipeline. After every step: relic verifies the output, exactly one signature exists (DEB: one per role slot, each from the latest key for that role) and it is from the latest key with the requested digest; the payload equals the original per independent reader; the content digest embedded for a given algorithm (extracted without relic from the PE certificate table, the MSI signature stream, the PowerShell block, the JAR manifest) equals the one first embedded, and for PE equals the harness reference Authenticode digest; the is-signed probe is false on unsigned generated inputs and true on every output.",
     "level_note": "Digest extraction exists for PE, MSI, PowerShell and JAR only; for the other types the history invariants are verify/one-signature/payload. XAP re-signing is a listed finding (excluded by construction after its probe).",
-    "quick": {"checks": 50, "timeout": 1200, "env": {"VERIF_C08_STEPS": 5}},
+    "quick": {"checks": 110, "timeout": 1200, "env": {"VERIF_C08_STEPS": 5}},
     "thorough": {"checks": 700, "timeout": 3400, "shards": 8, "env": {"VERIF_C08_STEPS": 12}},
 }
 CHECKS["C18"] = {
@@ -80,7 +80,7 @@ CHECKS["C18"] = {
     "technique": "stateful property-based testing (rapid) with a harness CFB generator, an MS-CFB validator as oracle, a stream-set model and a reference MSI digest",
     "level_text": "Generated compound files (512/4096-byte sectors, with/without mini stream, streams around the 4096 cutoff, nested storages, free-sector patterns, fragmented chains, directory padding and holes, DIFAT sectors) are edited through relic's comdoc writer with drawn histories of AddFile (signature stream names and other names incl. case variants; sizes on both sides of the cutoff), replace, DeleteFile and Close+reopen. After every close a validator written from MS-CFB must find no violation (header counts, FAT/DIFAT/miniFAT chains in bounds, acyclic and disjoint, no leaked sectors, directory red-black tree correctly ordered and coloured) and every stream and storage must equal the model in name, metadata and bytes. Separately the MSI digest from the tar stream (drawn read sizes) must equal the digest from the container and a harness reference computation (with and without the extended pre-hash).",
     "level_note": "Trusts the harness validator and generator (cross-checked against each other and against the repository's dummy.msi). The reference MSI digest follows the osslsigncode algorithm; the extended pre-hash reference is of medium confidence (same field selection as relic).",
-    "quick": {"checks": 1500, "timeout": 900, "env": {"VERIF_C18_OPS": 8}},
+    "quick": {"checks": 3500, "timeout": 900, "env": {"VERIF_C18_OPS": 8}},
     "thorough": {"checks": 30000, "timeout": 3400, "shards": 8, "env": {"VERIF_C18_OPS": 30}},
 }
 CHECKS["C16"] = {
@@ -89,7 +89,7 @@ CHECKS["C16"] = {
     "technique": "property-based round-trip testing (rapid) with an independent DER walker/verifier as oracle, OpenSSL cross-check on a sample",
     "level_text": "Harness-built third-party-style SignedData (unsorted signed attributes, extra attributes incl. unknown OIDs, several certificates and CRLs in any order, 1-3 SignerInfos, RSA PKCS#1 / RSA-PSS / ECDSA, NULL vs absent digest parameters, nested countersignatures and RFC 3161 tokens, attached/detached/non-data content) and harness-TSA tokens in many option combinations go through relic's Unmarshal -> Marshal, Detach and timestamp embedding; every signed region located by an independent DER walker must still be present byte-identically and every signature, countersignature and token must still verify with Go crypto (openssl cms -verify on a sample). The PKCS#7 inside relic's own PE, MSI, PowerShell, JAR and catalog outputs (drawn key, digest, options) must carry content-type and message-digest exactly once and consistent with the content, verify over exactly the emitted SET OF bytes under the configured leaf, keep a re-signed catalog's content byte-identical, and survive relic's own round trip byte-identically.",
     "level_note": "Trusts the harness DER walker/verifier (cross-checked against openssl cms/ts and the Microsoft-signed fixture catalog). BER framing and subjectKeyIdentifier signer ids are excluded because relic's parser refuses them explicitly (no re-encoding happens).",
-    "quick": {"checks": 600, "timeout": 900},
+    "quick": {"checks": 2000, "timeout": 900},
     "thorough": {"checks": 15000, "timeout": 3400, "shards": 8},
 }
 CHECKS["C19"] = {
@@ -98,7 +98,7 @@ CHECKS["C19"] = {
     "technique": "differential and metamorphic property-based testing (rapid): relic canonicaliser vs JDK exclusive c14n; sign / re-serialise / mutate / verify; JDK XML-DSig validation",
     "level_text": "Grammar-generated manifests covering every namespace, attribute, text, comment, PI and prolog edge class (switchable individually) are serialised in a drawn style; for a drawn subtree relic's SerializeCanonical must equal the JDK's exclusive canonicaliser byte for byte. Generated manifests are signed as application manifests (RSA-2048/3072, P-256/384/521; SHA-1..512), must verify in relic (and, for the standard SHA-1 URIs, in the JDK's XML-DSig validator), must still verify after a canonical-meaning-preserving re-serialisation (attribute order, quotes, empty-element form, char refs vs literals, CDATA, comments, redundant and unused namespace declarations, prolog) and must fail after one meaning-changing edit outside the Signature. SignatureValue widths, publicKeyToken (independent strong-name computation, RSA) and publisherIdentity (SHA-1 of the issuer key, subject name) are checked. VSIX package signatures (inclusive c14n declared) are validated by the JDK for every key and digest.",
     "level_note": "Trusts JDK 17 (Apache Santuario canonicalisers, javax.xml.crypto.dsig) and the harness XML generator/re-serialiser (itself property-tested against the JDK). Microsoft's non-standard sha256/384/512 algorithm URIs cannot be validated by the JDK, so there the evidence is relic's verifier plus the canonicaliser differential.",
-    "quick": {"checks": 500, "timeout": 1200},
+    "quick": {"checks": 1000, "timeout": 1200},
     "thorough": {"checks": 12000, "timeout": 3400, "shards": 8},
 }
 CHECKS["C07"] = {
@@ -107,7 +107,7 @@ CHECKS["C07"] = {
     "technique": "property-based testing (rapid) over generated key/certificate configurations with an independent extraction of the embedded leaf and signature check",
     "level_text": "Configurations are generated per case: private key from a pool of 7 (two RSA-2048, RSA-3072, two P-256, P-384, P-521) x certificate made for the same key, another key of the same kind, another kind, or the same curve with another point x chain order (leaf first/last/middle, with/without intermediate and root) x container (PEM, concatenated DER, certs-only PKCS#7 PEM/DER, PKCS#12 bundle, token-stored certificate, token that hands out another key than the certificate's) x PGP certificate of the same/another key x 12 signature types. If the certificate relic treats as leaf does not belong to the signing key, signing must fail, leave the input untouched and emit nothing; if a signature is emitted, the first embedded certificate must be the signing key's and the signature must verify under it (PKCS#7 types: independent DER walker + Go crypto; others: relic's verifier with that certificate / PGP key as the only acceptable signer).",
     "level_note": "File token and a recording token registered through token.Openers; PKCS#11/cloud tokens not exercised. A matching configuration may be refused only for the documented manifest requirement (issuer certificate must be in the chain).",
-    "quick": {"checks": 1500, "timeout": 900},
+    "quick": {"checks": 4000, "timeout": 900},
     "thorough": {"checks": 30000, "timeout": 3400, "shards": 8},
 }
 CHECKS["C02"] = {
@@ -116,7 +116,7 @@ CHECKS["C02"] = {
     "technique": "metamorphic property-based testing (rapid): mutate protected regions (computed from the format specifications by independent readers) of signed artefacts; verifier must reject",
     "level_text": "18 artefact kinds (PE, MSI, JAR, APK, VSIX, XAP, APPX, PowerShell, Mach-O, CAB, DMG, XAR, RPM, DEB, catalog, PGP detached/clearsign/inline) are signed with drawn key and digest; the harness computes protected byte ranges from the format specifications with independent readers (PE layout parser, CFB reader incl. mini-stream ranges, ZIP directory, Mach-O sections, CAB/DMG/XAR/RPM/ar headers, PGP v4 packet structure, DER walker for signed attributes, message digest, content octets, signature value and leaf certificate) and applies bit flips, overwrites, 2-8 byte scrambles and truncations there, plus semantic edits (replace/delete/add ZIP member, graft a signature onto other content, append data after or inside the signature container, add or change an MSI stream by rebuilding the container). A mutation that the independent reader shows to leave protected content unchanged is discarded and counted. relic's verifier (digests and chain on) must reject every remaining mutant.",
     "level_note": "Protected sets follow the specifications, not relic (e.g. the outer ContentInfo framing, PGP unhashed subpackets, [Content_Types].xml of OPC packages and unlisted JAR members are not claimed protected). A verifier panic on a mutant is counted, not reported here (C11's subject).",
-    "quick": {"checks": 25, "timeout": 1500, "env": {"VERIF_C02_MUTATIONS": 10}},
+    "quick": {"checks": 60, "timeout": 1500, "env": {"VERIF_C02_MUTATIONS": 10}},
     "thorough": {"checks": 400, "timeout": 3400, "shards": 8, "env": {"VERIF_C02_MUTATIONS": 25}},
 }
 CHECKS["C05"] = {
@@ -125,7 +125,7 @@ CHECKS["C05"] = {
     "technique": "differential property-based testing (rapid) against independent reference verifiers and specification-derived reference computations",
     "level_text": "relic-signed artefacts (generated PE, MSI, JAR, APK with members around the 1 MiB chunk size, PGP payloads; fixtures for DEB and RPM; drawn key, digest and options) are handed to code that shares nothing with relic: jarsigner -verify -strict with the harness CA as trust anchor; openssl cms -verify of the JAR signature block over the .SF file (chain to the harness CA); gpgv for detached / clearsign / inline PGP signatures (recovered text compared), for DEB role members (plus md5sum/sha1sum/size of every listed member, dpkg-deb -I/-c) and for the RPM header-only and header+payload signatures cut out of the signature header by an independent parser; and reference computations written from the specifications, compared with the digest the independent DER walker extracts from relic's signature: Authenticode PE image hash, page-hash table, PE checksum, WIN_CERTIFICATE framing and alignment, APK Signature Scheme v2 chunked digest, MSI stream-order digest and MsiDigitalSignatureEx pre-hash. Authenticode SignedData is verified with the DER walker + Go crypto.",
     "level_note": "signtool, codesign, apksigner, msiexec and .NET are not available offline: platform acceptance is approximated by the reference computations. JDK policy treats SHA-1 JAR signatures as unsigned (counted, not judged); inputs the JDK's own ZIP reader refuses are counted, not judged. The CAB header digest, XAR/Mach-O CMS and VSIX (see C19) are not covered here.",
-    "quick": {"checks": 40, "timeout": 1500},
+    "quick": {"checks": 90, "timeout": 1500},
     "thorough": {"checks": 600, "timeout": 3400, "shards": 8},
 }
 CHECKS["C09"] = {
@@ -134,7 +134,7 @@ CHECKS["C09"] = {
     "technique": "property-based testing (rapid) with harness-owned read schedules and scripted front servers; differential on the embedded content digest",
     "level_text": "(a) Every transform kind is read 2-4 times (optionally after a partially read, abandoned attempt, and in a repetition test with an attempt that is never read) and all complete reads must be byte-identical. (b) Signers are fed their upload stream under drawn read-size schedules (1 byte, primes, straddling 4 KiB / 64 KiB / 1 MiB, short reads, data returned with EOF): signing must succeed like a whole read, the patched file must verify and the embedded content digest, extracted without relic (PE, MSI, PowerShell, JAR per-file digests, APK v2), must be identical. (c) The same input is signed standalone and through the real daemon behind 1-3 scripted front servers (503 before/after reading k bytes, connection reset, 406, pass) listed by a scripted directory that advertises identity / gzip / snappy / unknown encodings, with a drawn retry budget: any produced signature must verify and embed the standalone digest; scripts with only transient HTTP failures, a passing server and enough retries must succeed; a failure must leave the input untouched.",
     "level_note": "The Go scheduler is not owned by the harness: the abandoned-attempt race is attacked by repetition (60 per transform, thorough 2000). Connection resets may or may not be failed over (unspecified), only the result's integrity is judged there.",
-    "quick": {"checks": 150, "timeout": 1500, "env": {"VERIF_C09_ABANDON_REPS": 60}},
+    "quick": {"checks": 400, "timeout": 1500, "env": {"VERIF_C09_ABANDON_REPS": 60}},
     "thorough": {"checks": 4000, "timeout": 3400, "shards": 8, "env": {"VERIF_C09_ABANDON_REPS": 2000}},
 }
 CHECKS["C10"] = {
@@ -143,7 +143,7 @@ CHECKS["C10"] = {
     "technique": "model-based property testing (rapid) with scripted RFC 3161 / legacy timestamp authorities; metamorphic token grafting; validity-window sweep",
     "level_text": "Three RFC 3161 and two legacy Microsoft authorities (harness encoder, cross-validated with openssl ts) each get one drawn behaviour per case (valid, granted-with-mods, wrong nonce, nonce omitted, wrong imprint, wrong imprint algorithm, rejection, waiting, granted without token, bad token signature, HTTP 500, garbage, truncated, wrong content type, hang until timeout); 14 timestamp-capable signature types, all keys, several digests are signed through relic's configured timestamper. Model: the token of the first authority whose reply is acceptable per the statement is attached (identified by its certificate and attested time), earlier authorities were contacted, later ones were not; no acceptable reply => signing fails and the input is untouched; no-timestamp => no request. At library level a token over another signature value, a token with a bad signature, or an altered host signature must fail verification while the matching token verifies including its chain. Signer certificates with drawn lifetimes and attested times (inside, outside, and within one second of both edges) must verify iff the attested time lies inside the lifetime, or, without a timestamp, iff the current time does.",
     "level_note": "Trusts the harness TSA encoder (its own tests validate it with openssl ts -verify). The memcached timestamp cache and the rate limiter are not exercised. Hang behaviours are rare because each costs the 1 s client timeout.",
-    "quick": {"checks": 150, "timeout": 1500},
+    "quick": {"checks": 350, "timeout": 1500},
     "thorough": {"checks": 4000, "timeout": 3400, "shards": 8},
 }
 CHECKS["C06"] = {
@@ -152,7 +152,7 @@ CHECKS["C06"] = {
     "technique": "history-based property testing (rapid): concurrent request mixes against the real daemon under injected audit-sink faults; invariants over responses and the audit file",
     "level_text": "Histories of 1-24 /sign requests (valid, via an alias, unknown key, key of a role the client lacks, unknown signature type, unknown digest, body the signer rejects) are issued by 1-16 concurrent TLS clients to the real daemon while the audit configuration is in one of: writable file, file in a missing directory, a directory in place of the file, /dev/full (ENOSPC), AMQP broker refusing connections, file plus refusing broker. Each request carries a unique file name. Invariants: every 2xx response has exactly one record, already present in the file when the response arrives, naming the resolved key, signature type, digest, certificate fingerprint, client name, client address and file name; failed requests leave no record; record count = 2xx count; every line is exactly one JSON object; with any sink failing no 2xx is returned. The relic binary is run with the same sink states: exit status 0 iff exactly one new, correct record.",
     "level_note": "Successful AMQP delivery cannot be exercised offline. Runs as root, so permission-based faults are replaced by structural ones (directory in place of the file, /dev/full).",
-    "quick": {"checks": 150, "timeout": 1200},
+    "quick": {"checks": 400, "timeout": 1200},
     "thorough": {"checks": 5000, "timeout": 3400, "shards": 8},
 }
 CHECKS["C15"] = {
@@ -161,7 +161,7 @@ CHECKS["C15"] = {
     "technique": "model-based property testing (rapid) of the real retry loop under a synctest fake clock with a scripted transport; state-machine testing of the token cache",
     "level_text": "Per-attempt outcome scripts (success, HTTP 500/502/503/504/507, 400/403/404, connection refused, per-attempt timeout, retryable / non-retryable token error, key-usage error, malformed reply) up to retry limits 1-8 are replayed to the real worker-token client (constructed through a verif-tagged hook, requests through http.DefaultClient with a scripted RoundTripper) for ping, get-key and sign, optionally with caller cancellation at a drawn fake instant. Model: attempts stop at the first success or non-transient outcome and never exceed the limit; success iff some attempt succeeded; key-usage errors keep their type and key name; delays between attempts lie in [1 s, 30 s], never shrink and grow by a factor e until the cap (exact under the fake clock); cancellation returns at the same fake instant and no attempt starts afterwards; every request carries the per-process secret. The real worker RPC handler (hook) in front of a scripted token must answer 403 without touching the token for a wrong or missing secret and carry the retryable / usage / key classification across the RPC boundary. The token cache is driven as a state machine {get, get pinned to a key id, rotate, advance clock}: a pinned request never gets a key with another id, a cached key is served exactly until it expires.",
     "level_note": "Trusts go1.26.8 testing/synctest. Uses two add-only hooks guarded by the build tag verif (token/worker/verif_hooks.go, cmdline/workercmd/verif_hooks.go) that only construct otherwise unexported structs. The worker subprocess life cycle (spawn, restart) is not exercised.",
-    "quick": {"checks": 3000, "timeout": 600, "vmem_kb": 0},
+    "quick": {"checks": 10000, "timeout": 600, "vmem_kb": 0},
     "thorough": {"checks": 60000, "timeout": 3000, "vmem_kb": 0, "shards": 8},
 }
 CHECKS["C13"] = {
